@@ -151,7 +151,49 @@ def oracle_restart(args):
         {"snapshots": len(U)}, "; ".join(problems[:2]) or "ok"
 
 
-ORACLES = {"restart": oracle_restart}
+@safe_oracle
+def oracle_restart_segments(args):
+    """a run made in SEGMENTS from one log object: stopped after k1 steps, restarted from its trace object and stopped after k2 steps,
+    restarted from the same object again and run to the end (the tracked electronics are handed on, so the listed gauge finding
+    does not enter): every snapshot of the final log equals the uninterrupted run's"""
+    import mudslide
+    spec = dict(args)
+    model, cls, cargs, kw = _setup(spec)
+    full = cls(*cargs, dt=spec["dt"], t0=spec["t0"], seed_sequence=1, max_steps=spec["K"], **kw)
+    U = [_fields(s) for s in full.simulate()]
+    tmp = tempfile.mkdtemp(prefix="verif-c13s-")
+    problems = []
+    try:
+        model2, cls, cargs, kw = _setup(spec)
+        tr = mudslide.YAMLTrace(base_name="traj", location=tmp, log_pitch=spec["pitch"]) if spec.get("store", "yaml") == "yaml" \
+            else mudslide.tracer.InMemoryTrace()
+        cur = cls(*cargs, dt=spec["dt"], t0=spec["t0"], seed_sequence=1, tracer=tr, max_steps=spec["ks"][0], **kw)
+        cur.simulate()
+        for stop in list(spec["ks"][1:]) + [spec["K"]]:
+            done = len(tr) - 1
+            opts = {"max_steps": stop}
+            if spec.get("integ") and spec["cls"] != "AdiabaticMD":
+                opts["electronic_integration"] = spec["integ"]
+            if spec["cls"] == "TrajectorySH":
+                opts["zeta_list"] = [float(z) for z in spec["zetas"]][done:]
+            if spec["cls"] != "AdiabaticMD":
+                opts["electronics"] = cur.electronics
+            cur = cls.restart(model2, tr, **opts)
+            cur.simulate()
+        R = [_fields(s) for s in tr]
+    finally:
+        shutil.rmtree(tmp, ignore_errors=True)
+    if len(R) != len(U):
+        problems.append("the log of the run made in segments %r has %d snapshots, the uninterrupted run %d" % (spec["ks"], len(R), len(U)))
+    for i in range(min(len(R), len(U))):
+        msg = _same_snap(R[i], U[i])
+        if msg:
+            problems.append("snapshot %d of the run made in segments %r: %s" % (i, spec["ks"], msg))
+            break
+    return not problems, {"uninterrupted": len(U), "segments": len(R), "problems": problems[:2]}, {"snapshots": len(U)}, "; ".join(problems[:2]) or "ok"
+
+
+ORACLES = {"restart": oracle_restart, "restart_segments": oracle_restart_segments}
 
 
 def _model_check(ctx, spec, U):
@@ -198,6 +240,20 @@ def run(ctx):
         if a[2] != b[2] or [e for e in la if e[0] > k] != lb:
             ctx.corr_mismatch("restart.model-split", {"K": K, "k": k, "te": te}, "uninterrupted %r restarted %r" % (la, lb))
 
+    # runs made in three segments from ONE trace object (two restarts from the same log)
+    for i in range(ctx.budget(6, 90)):
+        cls = ["Ehrenfest", "AdiabaticMD", "TrajectorySH"][i % 3]
+        K = int(rng.integers(9, 20))
+        k1 = int(rng.integers(1, K - 4))
+        k2 = int(rng.integers(k1 + 1, K - 1))
+        a = dict(cls=cls, N=int(rng.integers(2, 4)), n=int(rng.integers(1, 3)), model_seed=int(rng.integers(1, 10 ** 6)), dt=float(rng.choice([2.0, 5.0])),
+                 t0=0.0, K=K, ks=[k1, k2], pitch=int(rng.choice([1, 3, 5, 512])), store=["yaml", "yaml", "memory"][(i // 3) % 3],
+                 zetas=[float(v) for v in 0.2 + 0.8 * rng.random(K + 4)])
+        ok, obs, req, text = oracle_restart_segments(a)
+        ctx.case(("segments", cls, a["store"], a["pitch"]))
+        ctx.count("runs_made_in_three_segments_from_one_log_object")
+        if not ok:
+            ctx.oracle_fail("restart-in-segments:" + cls, "restart_segments", a, obs, req, text)
     classes = ["Ehrenfest", "AdiabaticMD", "TrajectorySH"]
     nrandom = ctx.budget(9, 150)
     for i in range(nrandom + ctx.budget(2, 12)):
